@@ -31,19 +31,21 @@ def prefix_kept(g, old):
 def no_listed_divisor(p, upto, n):
     """no list entry with index < upto divides n"""
     i = _z3.Int('i!nd')
-    return _z3.ForAll([i], _z3.Implies(_z3.And(0 <= i, i < upto), n % p[i] != 0))
+    from engine.spec import TDIV as D
+    return _z3.ForAll([i], _z3.Implies(_z3.And(0 <= i, i < upto), n - p[i] * D(n, p[i]) != 0))
 
 
 def div_lemmas():
     """integer-division facts used to read 'd <= n / d' as 'd*d <= n' (each proved from the definition
     of floor division by engine/selftest.py; stated here so that z3 need not do non-linear reasoning)"""
+    from engine.spec import TDIV as D
     a, b, n = _z3.Ints('a!dl b!dl n!dl')
     return _z3.And(
-        _z3.ForAll([a, b, n], _z3.Implies(_z3.And(1 <= a, a <= b, 0 <= n, a > n / a), b > n / b)),
-        _z3.ForAll([a, n], _z3.Implies(_z3.And(2 <= a, 1 <= n), n / a < n)),
-        _z3.ForAll([a, n], _z3.Implies(_z3.And(1 <= a, a <= n / a, n < U32), a < 65536)),
-        _z3.ForAll([a, n], _z3.Implies(_z3.And(1 <= a, 0 <= n), _z3.And(n / a <= n, n / a >= 0))),
-        _z3.ForAll([a, n], _z3.Implies(_z3.And(2 <= a, 1 <= n, n % a == 0), _z3.And(a * (n / a) == n, n / a >= 1))))
+        _z3.ForAll([a, b, n], _z3.Implies(_z3.And(1 <= a, a <= b, 0 <= n, a > D(n, a)), b > D(n, b))),
+        _z3.ForAll([a, n], _z3.Implies(_z3.And(2 <= a, 1 <= n), D(n, a) < n)),
+        _z3.ForAll([a, n], _z3.Implies(_z3.And(1 <= a, a <= D(n, a), n < U32), a < 65536)),
+        _z3.ForAll([a, n], _z3.Implies(_z3.And(1 <= a, 0 <= n), _z3.And(D(n, a) <= n, D(n, a) >= 0))),
+        _z3.ForAll([a, n], _z3.Implies(_z3.And(2 <= a, 1 <= n, n - a * D(n, a) == 0), _z3.And(a * D(n, a) == n, D(n, a) >= 1))))
 
 
 ENV = {'DIV_LEMMAS': div_lemmas, 'gen_ok': gen_ok, 'prefix_kept': prefix_kept,
@@ -57,15 +59,15 @@ fn(G + 'PrimesGenerator', TU, serves=['C15', 'C05'], extra_env=ENV, assigns=['th
 
 fn(G + '_is_prime', TU, serves=['C15', 'C05'], extra_env=ENV, pure=True, nowrap=True,
    requires=['gen_ok(this)', 'n >= 2'], body_assumes=['DIV_LEMMAS()'],
-   ensures=[('trial_division_true', 'Implies(result, forall(lambda i: Implies(And(0 <= i, i < _primes.len, _primes[i] <= n / _primes[i]), n % _primes[i] != 0)))'),
-            ('trial_division_false', 'Implies(Not(result), exists(lambda i: And(0 <= i, i < _primes.len, _primes[i] <= n / _primes[i], n % _primes[i] == 0)))')],
-   loops={1: {'inv': [('visited', 'forall(lambda i: Implies(And(0 <= i, i < d_idx), And(_primes[i] <= n / _primes[i], n % _primes[i] != 0)))')]}})
+   ensures=[('trial_division_true', 'Implies(result, forall(lambda i: Implies(And(0 <= i, i < _primes.len, _primes[i] <= tdiv(n, _primes[i])), tmod(n, _primes[i]) != 0)))'),
+            ('trial_division_false', 'Implies(Not(result), exists(lambda i: And(0 <= i, i < _primes.len, _primes[i] <= tdiv(n, _primes[i]), tmod(n, _primes[i]) == 0)))')],
+   loops={1: {'inv': [('visited', 'forall(lambda i: Implies(And(0 <= i, i < d_idx), And(_primes[i] <= tdiv(n, _primes[i]), tmod(n, _primes[i]) != 0)))')]}})
 
 fn(G + '_add_primes', TU, serves=['C15', 'C05'], extra_env=ENV, assigns=['this._primes'], nowrap=True,
    requires=['gen_ok(this)', '_pos == _primes.len - 1', '_primes[_pos] < U32 - 4'],
    ensures=[('invariant', 'gen_ok(this)'), ('prefix', 'prefix_kept(this, old.this)'),
             ('one_more', '_primes.len == old._primes.len + 1'),
-            ('candidate', 'forall(lambda i: Implies(And(0 <= i, i < old._primes.len, old._primes[i] <= _primes[_primes.len-1] / old._primes[i]), _primes[_primes.len-1] % old._primes[i] != 0))')],
+            ('candidate', 'forall(lambda i: Implies(And(0 <= i, i < old._primes.len, old._primes[i] <= tdiv(_primes[_primes.len-1], old._primes[i])), tmod(_primes[_primes.len-1], old._primes[i]) != 0))')],
    loops={1: {'inv': [('above', 'val > _primes[_pos]')],
               'assume': ['val < U32 - 4'], 'no_termination': True}},
    notes='the candidate search is assumed to find a prime before the 32-bit range ends (trusted: L-EUCLID / prime gaps)')
@@ -83,7 +85,7 @@ fn('dsplib::isprime', TU, serves=['C15', 'C05'], extra_env=ENV, pure=True, nowra
    body_assumes=['DIV_LEMMAS()'],
    ensures=[('small', 'Implies(n < 2, Not(result))'),
             ('table_exact', 'Implies(n <= 251, result == Or(%s))' % ', '.join('n == %d' % v for v in PRIMES54)),
-            ('composite_witness', 'Implies(And(Not(result), n > 251), exists(lambda q: And(1 < q, q < n, n % q == 0)))')],
+            ('composite_witness', 'Implies(And(Not(result), n > 251), exists(lambda q, r: And(1 < q, q < n, n == q * r)))')],
    loops={1: {'inv': [('gen', 'gen_ok(gen)'), ('cur', 'd == gen._primes[gen._pos]'), ('big', 'n > 251'),
                       ('shape', 'Or(And(gen._primes.len == 54, gen._primes[53] == 251), gen._pos == gen._primes.len - 1)'),
                       ('visited', 'no_listed_divisor(gen._primes, gen._pos, n)')],
